@@ -51,6 +51,7 @@ type c38Runner struct {
 	built    bool
 	slotMans [256]backup.SlotManifest
 	manifest backup.ArchiveManifest
+	empties  []int // slots that contain an empty-stream chunk (logical_bytes = 0)
 	r        *Rand
 }
 
@@ -123,11 +124,18 @@ func (r *c38Runner) build(seed uint64) string {
 	root := "backups/" + c38ID + "/"
 	var refs []backup.SlotReference
 	totalChunks := 0
+	r.empties = nil
 	for hs := 0; hs < 256; hs++ {
 		nmsg := rnd.Pick(5, 3, 1)
 		var chunks []backup.ChunkReference
 		mk := func(kind backup.ChunkKind, seq, stream, part uint32, final bool, prefix string) {
 			body := rnd.Bytes(rnd.Range(1, 200))
+			if rnd.Chance(6) {
+				body = nil // an EMPTY stream: the exporter writes a chunk with logical_bytes = 0
+				if len(r.empties) == 0 || r.empties[len(r.empties)-1] != hs {
+					r.empties = append(r.empties, hs)
+				}
+			}
 			var stored bytes.Buffer
 			desc, err := backup.EncodeChunk(&stored, bytes.NewReader(body))
 			if err != nil {
@@ -183,7 +191,7 @@ func (r *c38Runner) build(seed uint64) string {
 	r.publish(am)
 	r.built = true
 	_, err := backup.VerifyPublishedArchive(ctx, r.store, c38ID)
-	return fmt.Sprintf("%s slots=256 chunks=%d", c38Err(err), totalChunks)
+	return fmt.Sprintf("%s slots=256 chunks=%d emptyslots=%d", c38Err(err), totalChunks, len(r.empties))
 }
 
 func (r *c38Runner) publish(am backup.ArchiveManifest) {
@@ -217,6 +225,12 @@ func (r *c38Runner) mutate(class string, a, b, c uint64) string {
 	ck := sm.Chunks[int(b)%len(sm.Chunks)]
 	if class == "chunk-bitsweep" {
 		return r.bitSweep(hs, c)
+	}
+	if class == "chunk-bitsweep-empty" {
+		if len(r.empties) == 0 {
+			return "skip"
+		}
+		return r.bitSweep(r.empties[int(a)%len(r.empties)], c)
 	}
 	type saved struct {
 		key  string
@@ -342,6 +356,44 @@ func (r *c38Runner) mutate(class string, a, b, c uint64) string {
 	case "corrupt-flag":
 		save(root + "CORRUPT")
 		r.put(root+"CORRUPT", []byte("x"))
+	case "slotman-traversal-key":
+		// a consistently re-published archive whose Slot manifest names a chunk through a non-canonical
+		// key (`slots/HHH/attempts/../../KKK/meta-000001.zst`) that resolves to ANOTHER slot's chunk
+		other := (hs + 1 + int(c)%255) % 256
+		oc := r.slotMans[other].Chunks[0]
+		sm2 := sm
+		sm2.Chunks = append([]backup.ChunkReference(nil), sm.Chunks...)
+		first := sm2.Chunks[0]
+		first.Key = fmt.Sprintf("slots/%03d/attempts/../../%03d/meta-000001.zst", hs, other)
+		first.Descriptor = oc.Descriptor
+		first.Records = oc.Records
+		sm2.Chunks[0] = first
+		sm2.LogicalBytes, sm2.StoredBytes, sm2.Records = 0, 0, 0
+		for _, x := range sm2.Chunks {
+			sm2.LogicalBytes += x.Descriptor.LogicalBytes
+			sm2.StoredBytes += x.Descriptor.StoredBytes
+			sm2.Records += x.Records
+		}
+		body, err := backup.MarshalSlotManifest(sm2)
+		if err != nil {
+			return "verify=err:encoder-" + strings.TrimPrefix(c38Err(err), "err:")
+		}
+		key := root + fmt.Sprintf("slots/%03d/manifest.json", hs)
+		save(key)
+		save(root + "manifest.json")
+		save(root + "COMPLETE")
+		r.put(key, body)
+		am := r.manifest
+		am.Slots = append([]backup.SlotReference(nil), am.Slots...)
+		am.Slots[hs].ManifestSHA256 = sha(body)
+		am.Slots[hs].LogicalBytes, am.Slots[hs].StoredBytes, am.Slots[hs].Records = sm2.LogicalBytes, sm2.StoredBytes, sm2.Records
+		am.LogicalBytes, am.StoredBytes, am.Records = 0, 0, 0
+		for _, x := range am.Slots {
+			am.LogicalBytes += x.LogicalBytes
+			am.StoredBytes += x.StoredBytes
+			am.Records += x.Records
+		}
+		r.publish(am)
 	case "id-mismatch":
 		// a consistently published manifest that names another backup id
 		save(root + "manifest.json")
@@ -387,7 +439,7 @@ func (r *c38Runner) bitSweep(hs int, seed uint64) string {
 					first = fmt.Sprintf("%d:%d:%d", ci, byteIdx, bit)
 				}
 			}
-			if byteIdx == 4 || byteIdx == 5 {
+			if byteIdx == 4 || byteIdx == 5 || ck.Descriptor.LogicalBytes == 0 {
 				storeFlips++
 				r.put(root+ck.Key, b)
 				if _, _, err := backup.LoadStoredSlotReference(ctx, r.store, c38ID, ref, true); err == nil {
@@ -405,6 +457,25 @@ func (r *c38Runner) bitSweep(hs int, seed uint64) string {
 		}
 		for k := 0; k < 64 && len(orig) > 48; k++ {
 			try(32+rnd.Intn(len(orig)-48), rnd.Intn(8))
+		}
+		if ck.Descriptor.LogicalBytes == 0 {
+			// same-length garbage in place of an empty-stream chunk
+			for k := 0; k < 4; k++ {
+				g := rnd.Bytes(len(orig))
+				if bytes.Equal(g, orig) {
+					continue
+				}
+				flips++
+				storeFlips++
+				if backup.DecodeChunk(io.Discard, bytes.NewReader(g), ck.Descriptor) == nil {
+					undetected++
+				}
+				r.put(root+ck.Key, g)
+				if _, _, err := backup.LoadStoredSlotReference(ctx, r.store, c38ID, ref, true); err == nil {
+					storeUndetected++
+				}
+				r.put(root+ck.Key, orig)
+			}
 		}
 	}
 	return fmt.Sprintf("flips=%d undetected=%d storeflips=%d storeundetected=%d first=%s", flips, undetected, storeFlips, storeUndetected, first)
